@@ -77,6 +77,9 @@ UNIT = dict(
             ("R3",),
             ("addarg", ["try_acquire"], CT + ", Tracked(gh)", 2),
         ]),
+        "RateLimiterStateInner::new": dict(rules=[("addarg", ["FixedWindowState::new", "SlidingCounterState::new"], "clk", 2)]),
+        "SharedRateLimiter::new": dict(rules=[("addarg", ["RateLimiterStateInner::new"], "clk", 1)]),
+        "RateLimiter::new": dict(file="lib", rules=[("addarg", ["SharedRateLimiter::new"], "clk", 1)]),
         "RateLimiter::clone@Clone": dict(file="lib"),
         "RateLimiter::poll_ready@Service": dict(file="lib", rules=[("R10p", "RateLimiterServiceError::Inner")]),
         "RateLimiter::call@Service": dict(file="lib", rules=[
